@@ -252,6 +252,12 @@ func genHistory(r *common.Rand, nops int) histCase {
 		hc.Depth = 1 + r.Intn(3)
 	}
 	if r.Intn(40) == 0 {
+		// not one well-formed document: encoding/json's Decoder is lenient about some of these
+		t := common.Pick(r, []string{"{} xyz", "{\"a\":1,\"a\":2}", "\ufeff{}", "", " ", "{}{}", "{\"auths\":{}}\n]", "{\"auths\":{\"h\":{\"auth\":\"dTpw\"},\"h\":{}}}",
+			"{\"k\":1,}", "{'k':1}", "{\"k\":01}", "{\"auths\":{}} {\"auths\":{\"x\":{}}}", "// c\n{}"})
+		hc.Init = &t
+		hc.Mode = 0o600
+	} else if r.Intn(40) == 0 {
 		// valid JSON documents that are not objects
 		t := common.Pick(r, []string{"null", "null\n", " null", "[]", "0", "\"s\"", "true", "[{}]"})
 		hc.Init = &t
@@ -426,6 +432,7 @@ func checkFloors() []string {
 	need("stream:plain-vs-memory", run.Scale(60, 5000))
 	need("ref:memory-store", run.Scale(60, 5000))
 	need("init:doc", run.Scale(400, 40000))
+	need("init:unparseable-but-loaded", run.Scale(2, 100))
 	need("init:symlinked-path", run.Scale(20, 2000))
 	need("store:disable-put", run.Scale(10, 1000))
 	need("op:set-creds-store", run.Scale(50, 5000))
